@@ -1343,6 +1343,13 @@ impl TensorStore {
             }
         }
 
+        // The graph slab, the relational slab and the blob log are not addressed by keys, so
+        // the loop above does not reach them: take their contents over from the image.
+        let image = new_router.snapshot();
+        self.router.graph.restore_from(image.graph);
+        self.router.relations.restore_from(image.relations);
+        self.router.blobs.restore_from(image.blobs);
+
         Ok(())
     }
 
